@@ -53,7 +53,7 @@ OPS = ['load0', 'load1', 'load2', 'load3', 'load4', 'loadfail', 'register', 'ass
 
 
 def py_def(kind):
-    """the Python predicate registered for p and its model: kind 0 inferred(1 arg) 1 arity0 2 arity1 3 arity2 4 variadic"""
+    """the Python predicate registered for p and its model: kind 0 inferred(1 arg) 1 arity0 2 arity1 3 arity2 4 variadic 5-7 *args function with explicit arity 0/1/2"""
     def p1(a):
         for _ in unify(a, 40):
             yield False
@@ -69,7 +69,9 @@ def py_def(kind):
     def pv(*args):
         yield False
     return [(p1, None, ('p', 1), [(40,)]), (p0, 0, ('p', 0), [()]), (p1, 1, ('p', 1), [(40,)]),
-            (p2, 2, ('p', 2), [(41, 42)]), (pv, -1, ('p', 'n'), 'succeed-once')][kind]
+            (p2, 2, ('p', 2), [(41, 42)]), (pv, -1, ('p', 'n'), 'succeed-once'),
+            # explicit arity that the signature does not reveal
+            (pv, 0, ('p', 0), 'succeed-once'), (pv, 1, ('p', 1), 'succeed-once'), (pv, 2, ('p', 2), 'succeed-once')][kind]
 
 
 def battery(yp):
@@ -109,7 +111,7 @@ def make_body(steps, info):
     spec = []
     for s in range(steps):
         spec += [('op%d' % s, 'int', '0 <= op%d <= %d' % (s, len(OPS) - 1)), ('ow%d' % s, 'bool', None),
-                 ('kind%d' % s, 'int', '0 <= kind%d <= 4' % s), ('v%d' % s, 'int', None)]
+                 ('kind%d' % s, 'int', '0 <= kind%d <= 7' % s), ('v%d' % s, 'int', None)]
     ix = ch.index_of(spec)
 
     def body(vals):
@@ -145,7 +147,7 @@ def make_body(steps, info):
                 elif opname == 'register':
                     kind = g('kind%d' % s)
                     fn, arity, key, d = py_def(0)
-                    for j in range(5):
+                    for j in range(8):
                         if kind == j:
                             fn, arity, key, d = py_def(j)
                     yp.register_function('p', fn, arity)
